@@ -1939,6 +1939,10 @@ FILES_MERKLE = [("Merkle", "packages/contract-utils/src/crypto/hashable.rs", ["c
                 ("Merkle", "packages/contract-utils/src/crypto/merkle.rs", ["verify", "verify_with_index"])]
 TYMAPS_MERKLE = {"packages/contract-utils/src/crypto/hashable.rs": {"H": "Bytes32", "S": "Hasher!", "Output": "Bytes32"},
                  "packages/contract-utils/src/crypto/merkle.rs": {"H": "Hasher!"}}
+STORE_NFTT = {"NftT": {"Approval": (["u32"], "ApprovalData", "temp"), "ApprovalForAll": (["Address", "Address"], "u32", "temp")}}
+READS_NFTT = {"NftT": {"ledger_sequence": "u32", "min_temp_ttl": "u32", "max_ttl": "u32", "authorized": "addr2bool"}}
+FILES_NFTT = [("NftT", "packages/tokens/src/non_fungible/storage.rs",
+               ["get_approved", "is_approved_for_all", "approve_for_all", "approve_for_owner", "check_spender_approval"])]
 STORE_FT = {"FungibleT": {"Allowance": (["AllowanceKey"], "AllowanceData", "temp")}}
 READS_FT = {"FungibleT": {"ledger_sequence": "u32", "min_temp_ttl": "u32", "max_ttl": "u32"}}
 FILES_FT = [("FungibleT", "packages/tokens/src/fungible/storage.rs", ["allowance_data", "allowance", "set_allowance", "spend_allowance"])]
@@ -2475,7 +2479,10 @@ def main():
                 sys.stdout.write(txt)
         sys.exit(rc)
     try:
-        if "--fungible-ttl" in sys.argv:
+        if "--nft-ttl" in sys.argv:
+            txt = translate(repo, FILES_NFTT, imports=("OZ.Model.RustSemHost",), reads=READS_NFTT, structs=STRUCTS_NFT, store=STORE_NFTT,
+                            impl_types={"Base": "NftT"}, rename_types={"ApprovalData": "NftT.ApprovalData"})
+        elif "--fungible-ttl" in sys.argv:
             txt = translate(repo, FILES_FT, imports=("OZ.Model.RustSemHost",), reads=READS_FT, structs=STRUCTS_FUNGIBLE, store=STORE_FT,
                             impl_types={"Base": "FungibleT"},
                             rename_types={"AllowanceData": "FungibleT.AllowanceData", "AllowanceKey": "FungibleT.AllowanceKey"})
